@@ -55,6 +55,10 @@ type provider struct {
 	// a constructor registered under several interfaces with As (immutable after build)
 	aliases map[uint64][]*Descriptor
 
+	// Descriptors of the individual outputs of multi-return constructors and
+	// result objects, by registration (immutable after build)
+	outputs map[uint64][]*Descriptor
+
 	// Dependency graph (immutable after build)
 	graph *graph.DependencyGraph
 
